@@ -349,6 +349,54 @@ func RunN1(c *Ctx, nullRejecting map[string]bool) {
 	}
 	sort.Strings(names)
 	c.R.Extra["decode_forwarders"] = names
+	// null rejection is inherited: a forwarder all of whose decodes of its parameter go through null-rejecting functions
+	// rejects a null document itself (a thin wrapper around HttpRequest / ParseToken)
+	{
+		nr := map[string]bool{}
+		for k, v := range nullRejecting {
+			nr[k] = v
+		}
+		for changed := true; changed; {
+			changed = false
+			for _, d := range fwd {
+				if d.prim || nr[d.name] {
+					continue
+				}
+				hf := c.P.Fn(d.name)
+				if hf == nil || hf.Body == nil || hf.Sig == nil {
+					continue
+				}
+				hinfo := hf.Pkg.TypesInfo
+				n, good := 0, true
+				ast.Inspect(hf.Body, func(nd ast.Node) bool {
+					call, ok := nd.(*ast.CallExpr)
+					if !ok {
+						return true
+					}
+					targets, inner := decodeTargets(hinfo, call, fwd)
+					if inner == nil {
+						return true
+					}
+					for _, t := range targets {
+						if id, ok := unparen(t).(*ast.Ident); ok {
+							if v, isVar := hinfo.Uses[id].(*types.Var); isVar && isParamVar(c, v) {
+								n++
+								if !nr[inner.name] {
+									good = false
+								}
+							}
+						}
+					}
+					return true
+				})
+				if n > 0 && good {
+					nr[d.name] = true
+					changed = true
+				}
+			}
+		}
+		nullRejecting = nr
+	}
 	sites := 0
 	for _, fi := range c.P.Funcs {
 		if fi.Body == nil || fi.Lit != nil {
